@@ -382,6 +382,14 @@ pub fn shard_run(tier: &str, seed: u64, replay_case: Option<usize>, shard: Shard
             return out;
         }
     }
+    // ---- the real executable started on the states a crash leaves between two commits of one request
+    if replay_case.map(|c| c == 880_000).unwrap_or(shard.k == 6 % shard.n) {
+        if let Some(f) = crash_state_start(&mut cov, &mut out.errors) {
+            out.found.push(f);
+            out.cov = cov;
+            return out;
+        }
+    }
     // ---- end-to-end cross-check: the real executable under a write workload, killed with kill -9
     // at random instants; after restart every acknowledged request must be present
     if replay_case.is_none() {
@@ -591,6 +599,122 @@ fn upgrade_open_crashes(seed: u64, thorough: bool, shard: Shard, cov: &mut Cov, 
                 }
             }
             cov.hit("upgrade-open:kill9-during-startup-survived".into());
+        }
+    }
+    None
+}
+
+/// The HTTP add-version of a never-seen client commits the client row and then the version: a crash
+/// in between leaves a client without versions (the crash explorer sees that image at the library
+/// level). Here the *executable* - with and without an allow-list naming the client - is started on
+/// such a directory, and on one whose client also has a snapshot-less chain: it must start, accept
+/// the re-sent first version and serve it; the existing chain must be served.
+fn crash_state_start(cov: &mut Cov, errors: &mut Vec<String>) -> Option<Found> {
+    use crate::http::{socket_request, Framing};
+    use crate::net::{free_port, server_bin, Proc};
+    use crate::ops::{Req, Resp};
+    use std::time::Duration;
+    use taskchampion_sync_server_core::Storage;
+    let Some(bin) = server_bin() else {
+        errors.push("server binary not built".into());
+        return None;
+    };
+    for allow in [false, true] {
+        for with_other_client in [false, true] {
+            let dir = ScratchDir::new("c04state");
+            let c = Uuid::new_v4();
+            let other = Uuid::new_v4();
+            let mut other_first = None;
+            {
+                let st = match taskchampion_sync_server_storage_sqlite::SqliteStorage::new(dir.path()) {
+                    Ok(s) => s,
+                    Err(e) => {
+                        errors.push(format!("crash-state directory: {e:#}"));
+                        return None;
+                    }
+                };
+                if with_other_client {
+                    let server = taskchampion_sync_server_core::Server::new(Default::default(), st);
+                    {
+                        let mut t = server.txn(other).ok()?;
+                        t.new_client(Uuid::nil()).ok()?;
+                        t.commit().ok()?;
+                    }
+                    if let Ok((taskchampion_sync_server_core::AddVersionResult::Ok(v), _)) = server.add_version(other, Uuid::nil(), b"first of the other client".to_vec()) {
+                        other_first = Some(v);
+                    }
+                    let mut t = server.txn(c).ok()?;
+                    t.new_client(Uuid::nil()).ok()?;
+                    t.commit().ok()?;
+                } else {
+                    let mut t = st.txn(c).ok()?;
+                    t.new_client(Uuid::nil()).ok()?;
+                    t.commit().ok()?;
+                }
+            }
+            let label = format!("a data directory as a crash between the two commits of a new client's first add-version leaves it (client row, no version{}), executable {}", if with_other_client { "; another client has a version" } else { "" }, if allow { "with an allow-list naming the clients" } else { "without an allow-list" });
+            let start = |d: &std::path::Path| -> Result<(Proc, String), String> {
+                let mut last = String::new();
+                for _ in 0..3 {
+                    let port = free_port().ok_or("no free port")?;
+                    let addr = format!("127.0.0.1:{port}");
+                    let mut args: Vec<String> = vec!["--listen".into(), addr.clone(), "--data-dir".into(), d.to_string_lossy().to_string()];
+                    if allow {
+                        args.push("--allow-client-id".into());
+                        args.push(format!("{c},{other}"));
+                    }
+                    match Proc::start(&bin, &args, &[], &[addr.clone()], Duration::from_secs(20)) {
+                        Ok(p) => return Ok((p, addr)),
+                        Err(e) => last = e,
+                    }
+                    std::thread::sleep(Duration::from_millis(200));
+                }
+                Err(last)
+            };
+            let (mut proc, addr) = match start(dir.path()) {
+                Ok(x) => x,
+                Err(e) => {
+                    let control = ScratchDir::new("c04statectl");
+                    return match start(control.path()) {
+                        Ok((mut p, _)) => {
+                            p.kill9();
+                            Some(Found { property: "C04".into(), signature: "C04:crash-state does not start".into(), msg: format!("[{label}] the server does not start ({e}) although it starts on an empty directory with the same options: everything acknowledged before the crash is out of reach"), replay: json!({"origin": "crash-state", "case": 880_000}) })
+                        }
+                        Err(e2) => {
+                            errors.push(format!("crash-state start: {e}; control: {e2}"));
+                            None
+                        }
+                    };
+                }
+            };
+            cov.evaluations += 1;
+            cov.hit(format!("executable-on-crash-state|allow-list={allow}|other-client={with_other_client}"));
+            let to = Duration::from_secs(20);
+            let call = |client: Uuid, req: &Req| crate::subject::Subject::decode_http(req, &socket_request(&addr, &crate::subject::Subject::build_http(client, req), Framing::ContentLength, to));
+            let fail = |m: String| Some(Found { property: "C04".into(), signature: format!("C04:crash-state {}", m.split_whitespace().take(5).collect::<Vec<_>>().join(" ")), msg: format!("[{label}] {m}"), replay: json!({"origin": "crash-state", "case": 880_000}) });
+            if let Some(v) = other_first {
+                match call(other, &Req::GetChild { parent: Uuid::nil() }) {
+                    Resp::Found { vid, data, .. } if vid == v && data == b"first of the other client" => {}
+                    o => {
+                        proc.kill9();
+                        return fail(format!("the other client's acknowledged version is served as {}", o.short()));
+                    }
+                }
+            }
+            let data = b"the first version, sent again after the crash".to_vec();
+            let r = call(c, &Req::AddVersion { parent: Uuid::nil(), data: data.clone() });
+            let Resp::AddOk { vid, .. } = r else {
+                proc.kill9();
+                return fail(format!("the re-sent first add-version is answered {}", r.short()));
+            };
+            match call(c, &Req::GetChild { parent: Uuid::nil() }) {
+                Resp::Found { vid: v2, data: d2, .. } if v2 == vid && d2 == data => {}
+                o => {
+                    proc.kill9();
+                    return fail(format!("the re-sent first version was acknowledged but is served as {}", o.short()));
+                }
+            }
+            proc.kill9();
         }
     }
     None
